@@ -5,6 +5,7 @@ import json, sys
 pid = sys.argv[1]
 wt = sys.argv[2]
 out = sys.argv[3]
+avoid = sys.argv[4] if len(sys.argv) > 4 else ""
 prop = [json.loads(l) for l in open('/verif/properties.jsonl') if json.loads(l)['id'] == pid][0]
 print(f"""You are helping evaluate a verification framework by writing realistic *bug-introducing* changes ("seeded defects") for a Go code base. You work ONLY inside your own scratch git worktree of the repository at {wt} (a checkout of rangersprotocolcode/go-rangers, a Go full node for the Rangers Protocol blockchain; module path com.tuntun.rangers/node, sources under src/). Never touch /repo or /verif, and do not read anything under /verif.
 
@@ -21,7 +22,10 @@ Task: produce TWO independent, different changes to the repository source (not t
 
 For each change also write a DEMONSTRATION: a Go test file or small Go program that FAILS (or prints a clearly wrong result and exits non-zero) with the change applied and PASSES without it, using the repository's real code. A demonstration may be an in-package _test.go file placed in the worktree (it is delivered separately from the patch) or a standalone program in a scratch module.
 
+{("Ideas that were already tried by others and must NOT be repeated (pick different mechanisms, files or code paths): " + avoid) if avoid else ""}
+
 Sandbox mechanics (important, the sandbox is offline):
+  * other jobs run on this machine: NEVER use pkill/killall or any kill by name pattern; only kill process ids you started yourself. Put a `-timeout` on every `go test` (some existing tests of src/service and src/consensus hang for many minutes: run single tests by name with -run rather than whole packages there; packages importing consensus/ticker block in init() on an NTP query offline).
   * prefix every shell command with: export GOFLAGS=-mod=mod GOPROXY=off GOSUMDB=off GOTOOLCHAIN=local; unset GOWORK
   * `go build ./...` in the worktree takes ~1 min the first time (a C warning from go-sqlite3 is normal).
   * A scratch program outside the worktree: go.mod with `module demo`, `go 1.13`, `require com.tuntun.rangers/node v0.0.0`, `replace com.tuntun.rangers/node => {wt}`, and `cp {wt}/go.sum .`.
